@@ -145,6 +145,27 @@ fn glue_opt<const L: usize>(pat: &[u8; L], nosep: bool) {
     core::mem::forget((a, b));
 }
 
+/// every byte string of exactly L bytes through both real `from_bytes`; the extension parser is cut
+/// for non-exhausted iterators, so the only Locale results are those of extension-free inputs
+fn glue_cut<const L: usize>() {
+    let buf: [u8; L] = k::bytes();
+    #[cfg(not(kani))]
+    eprintln!("INPUT bytes={:?} {:?}", String::from_utf8_lossy(&buf), &buf);
+    let a = LanguageIdentifier::from_bytes(&buf);
+    let b = Locale::from_bytes(&buf);
+    cover!(a.is_ok() || L < 2);
+    if let Ok(li) = &a {
+        match &b {
+            Ok(loc) => {
+                assert!(loc.id == *li, "identical id");
+                assert!(loc.extensions.is_empty() && loc.extensions.other.is_empty(), "no extensions");
+            }
+            Err(_) => assert!(false, "Locale rejects an input LanguageIdentifier accepts"),
+        }
+    }
+    core::mem::forget((a, b));
+}
+
 proofs! {
 
 [push, sortv, boxed] fn c13_superset_1() { superset::<1>() }
@@ -175,6 +196,10 @@ proofs! {
 }
 [push, sortt, sortv, boxed] fn c13_locale_glue_en_us() { glue(b"en?US") }
 [push, sortt, sortv, boxed] fn c13_locale_glue_en_x_ab() { glue(b"en?x?ab") }
+// the real parse_locale glue on extension-free inputs, extension parser cut (stubs::ext_cut)
+[push, sortt, sortv, boxed, extcut] fn c13_glue_cut_len1() { glue_cut::<1>() }
+[push, sortt, sortv, boxed, extcut] fn c13_glue_cut_len2() { glue_cut::<2>() }
+[push, sortt, sortv, boxed, extcut] fn c13_glue_cut_len3() { glue_cut::<3>() }
 // symbolic language (every 2- and 3-byte string), through the real parse_locale glue
 [push, sortt, sortv, boxed] fn c13_locale_glue_lang2() { glue_opt(b"??", true) }
 [push, sortt, sortv, boxed] fn c13_locale_glue_lang3() { glue_opt(b"???", true) }
